@@ -32,7 +32,9 @@ type flow struct {
 	closeCalled  int
 }
 
-func (f *flow) sender(name string, n int, withCb bool) func() {
+func (f *flow) sender(name string, n int, withCb bool) func() { return f.senderSlow(name, n, withCb, false) }
+
+func (f *flow) senderSlow(name string, n int, withCb, slow bool) func() {
 	return func() {
 		for i := 1; i <= n; i++ {
 			p := fmt.Sprintf("%s%d", name, i)
@@ -41,7 +43,13 @@ func (f *flow) sender(name string, n int, withCb bool) func() {
 			if withCb {
 				cb = func(transports.Transport) {
 					f.cbs = append(f.cbs, cbRec{p, len(f.w.Events), f.x.Now()})
+					if slow {
+						vsched.Sleep(2 * time.Millisecond) // a callback that takes a while
+					}
 				}
+			}
+			if slow && i > 3 {
+				vsched.Sleep(time.Millisecond) // later sends arrive while earlier callbacks are still running
 			}
 			f.rec.Sock.Send(types.NewStringBufferString(p), nil, cb)
 			f.clock++
@@ -51,6 +59,9 @@ func (f *flow) sender(name string, n int, withCb bool) func() {
 }
 
 type flowCase struct {
+	nSends  int  // sends per sender (default 2)
+	slowCb  bool // callbacks contain a scheduling point (a callback that takes a while)
+	noBeat  bool // ping interval of an hour: no heartbeat traffic that could flush a stuck packet
 	kind    string
 	actor   bool
 	senders []string // "A", "B"
@@ -68,12 +79,26 @@ func (c flowCase) id() string {
 	if c.closer2 != "" {
 		cl += ">" + c.closer2
 	}
-	return strings.TrimSpace(fmt.Sprintf("%s %s senders=%s cb=%v %s", c.kind, a, strings.Join(c.senders, ""), c.cb, cl))
+	extra := ""
+	if c.nSends > 0 {
+		extra += fmt.Sprintf(" sends=%d", c.nSends)
+	}
+	if c.slowCb {
+		extra += " slow-callbacks"
+	}
+	if c.noBeat {
+		extra += " no-heartbeat"
+	}
+	return strings.TrimSpace(fmt.Sprintf("%s %s senders=%s cb=%v%s %s", c.kind, a, strings.Join(c.senders, ""), c.cb, extra, cl))
 }
 
 func flowBody(c flowCase, oracle string) vsched.Body {
 	return func(x *vsched.Exec) {
-		w := NewWorld(x, sessOpts())
+		so := sessOpts()
+		if c.noBeat {
+			so.SetPingInterval(time.Hour)
+		}
+		w := NewWorld(x, so)
 		s := openSession(x, w, c.kind, false)
 		if s == nil {
 			return
@@ -87,7 +112,11 @@ func flowBody(c flowCase, oracle string) vsched.Body {
 			s.startActor()
 		}
 		for _, name := range c.senders {
-			fn := f.sender(name, 2, c.cb)
+			ns := 2
+			if c.nSends > 0 {
+				ns = c.nSends
+			}
+			fn := f.senderSlow(name, ns, c.cb, c.slowCb)
 			vsched.GoNamed("sender:"+name, func() { w.BeginAction(); fn() })
 		}
 		var actions []string
@@ -373,7 +402,10 @@ func flowCases(prop string, thorough bool) []flowCase {
 		case "C01":
 			out = append(out, flowCase{kind: k, actor: true, senders: []string{"A"}}, flowCase{kind: k, actor: true, senders: []string{"A", "B"}})
 			out = append(out, flowCase{kind: k, actor: true, senders: []string{"A"}, closer: "close-false"})
+			// without heartbeat traffic: a packet that misses its flush is never delivered
+			out = append(out, flowCase{kind: k, actor: true, senders: []string{"A"}, noBeat: true}, flowCase{kind: k, actor: true, senders: []string{"A", "B"}, noBeat: true})
 		case "C18":
+			out = append(out, flowCase{kind: k, actor: true, senders: []string{"A"}, cb: true, nSends: 6, slowCb: true})
 			out = append(out, flowCase{kind: k, actor: true, senders: []string{"A"}, cb: true}, flowCase{kind: k, actor: true, senders: []string{"A", "B"}, cb: true})
 			out = append(out, flowCase{kind: k, actor: true, senders: []string{"A"}, cb: true, closer: "close-false"}, flowCase{kind: k, actor: true, senders: []string{"A"}, cb: true, closer: "close-true"})
 		case "C12":
